@@ -62,6 +62,10 @@ KINDS = {
     "mut_u32": K(name="mut_u32", sig="&mut u32", decl="let mut p{i}: u32 = {v};", arg="&mut p{i}",
                  canon_m="&**m{i}", canon_a="&*a{i}", canon_c="&p{i}", base="u32", is_ref=True, mutable=True,
                  mutate="*a{i} += 1000;"),
+    # the same with an explicitly named lifetime on the reference (still a plain `&mut u32` for the matcher)
+    "mut_u32_lt": K(name="mut_u32_lt", sig="&'b mut u32", decl="let mut p{i}: u32 = {v};", arg="&mut p{i}",
+                    canon_m="&**m{i}", canon_a="&*a{i}", canon_c="&p{i}", base="u32", is_ref=True, mutable=True,
+                    mutate="*a{i} += 1000;", elem_ty="&mut u32"),
     "mut_vec": K(name="mut_vec", sig="&mut Vec<u8>", decl="let mut p{i}: Vec<u8> = vec![{v} as u8];",
                  arg="&mut p{i}", canon_m="m{i}.as_slice()", canon_a="a{i}.as_slice()", canon_c="p{i}.as_slice()",
                  base="bytes", is_ref=False, mutable=True, mutate="a{i}.push(99);"),
@@ -371,6 +375,8 @@ def render_trait(s: Shape, idx: int, trait_name="Tr", method="m", unmock_attr=""
         generics.append("'s")
     if s.ret == "param_ref":
         generics.append("'a")
+    if any(k.name == "mut_u32_lt" for k in kinds):
+        generics.append("'b")
     for i, k in enumerate(kinds):
         if k.generic == "method":
             generics.append(f"T{i}: std::fmt::Debug + Clone + Send + Sync + 'static")
@@ -462,7 +468,7 @@ def answer_fn_item(s: Shape, idx: int):
         params.append(f"{'mut ' if False else ''}a{i}: {ty}")
     body = answer_closure(s, idx)
     inner = body[body.index("{"):]
-    return f"fn ans_{idx}<'a>({', '.join(params)}) -> &'a u32 {inner}"
+    return f"fn ans_{idx}<'a, 'b>({', '.join(params)}) -> &'a u32 {inner}"
 
 
 def answer_closure(s: Shape, idx: int, uname="u"):
@@ -835,7 +841,7 @@ def core_shapes_forward():
     """A deterministic pairwise-style core set for C05."""
     shapes = []
     plain = ["u32", "string", "nodbg", "ref_u32", "refref_u32", "ref_str", "ref_bytes", "ref_nodbg", "mut_u32",
-             "mut_vec", "mut_wr", "opt_ref", "tuple", "array", "boxed", "gen_method", "gen_impl", "gen_trait"]
+             "mut_u32_lt", "mut_vec", "mut_wr", "opt_ref", "tuple", "array", "boxed", "gen_method", "gen_impl", "gen_trait"]
     # every kind alone, on every receiver
     for r in RECEIVERS:
         for k in plain:
